@@ -465,6 +465,21 @@ def runtime_layer(ctx):
         rng.shuffle(progs)
         cases.append(core.fmt_case([200000, nk], progs,
                                    core.random_sched(rng, nk, rng.randint(50, 3000), rng.choice([0, 1, 2, 3, 3]))))
+    # a fiber woken by another fiber's completion (join) that then yield-polls for a third fiber while busy yielders
+    # share the runtime: the woken fiber must keep being re-queued by its own yields (more kernel threads than busy
+    # fibers at times, so that an idle thread can take the woken fiber the instant it is queued)
+    for i in range(10 * n):
+        nk = rng.choice([3, 4, 4])
+        waitop = [(10, rng.randint(0, 1))] * rng.randint(1, 3)
+        if i % 2:
+            progs = [waitop + [(27, 0)], [(1, 0)] * rng.randint(0, 6) + [(28, 0)]]
+            for _f in range(rng.choice([0, 1, 1, 2])):
+                progs.append([(1, 0)] * rng.randint(5, 40))
+        else:
+            progs = [waitop + [(1, 0)] * rng.randint(2, 10) for _ in range(rng.randint(1, 3))]
+        rng.shuffle(progs)
+        cases.append(core.fmt_case([200000, nk], progs,
+                                   core.random_sched(rng, nk, rng.randint(50, 2500), rng.choice([0, 1, 1, 2, 3, 3]))))
     # stall sweep: the two kernel threads alternate for p steps, then ONE of them runs alone for a long stretch (the other
     # is pre-empted wherever it happens to be: e.g. between queueing itself on the mutex and completing its switch), then
     # they alternate again; every p, both choices of the running thread, both creation orders
@@ -484,7 +499,7 @@ def runtime_layer(ctx):
         if why:
             bad += 1
             if bad <= 3:
-                core.report_violation(ctx, "kernel", c, "whole-runtime fairness layer (1 kernel thread): " + why, line)
+                core.report_violation(ctx, "kernel", c, "whole-runtime fairness layer: " + why, line)
     ctx.coverage["runtime_fairness_layer_t2"] = {"runs": len(cases), "violations": bad}
     ctx.oblige("fairness-t2(%d runs)" % len(cases), bad == 0, "%d runs judged a violation" % bad)
 
